@@ -81,3 +81,60 @@ def b_int_style(tier, rnd):
     styles = ["#", "b", "", "x", "##", "bb", "B", "#b", "♯"]
     return {"rule": "integers -30..42 and 4 large ones x 9 accidental styles", "cases":
             [(i, s) for i in ints for s in styles]}
+
+
+@battery("name_pairs_flag")
+def b_name_pairs_flag(tier, rnd):
+    n = bound(tier, 2, 3)
+    ns = all_names(n)
+    return {"rule": "all ordered pairs of names with <= %d accidentals x {True, False}" % n,
+            "exhaustive_upto": n, "cases": [(a, b, f) for a in ns for b in ns for f in (True, False)]}
+
+
+KEYS30 = ['Cb', 'ab', 'Gb', 'eb', 'Db', 'bb', 'Ab', 'f', 'Eb', 'c', 'Bb', 'g', 'F', 'd', 'C', 'a', 'G', 'e',
+          'D', 'b', 'A', 'f#', 'E', 'c#', 'B', 'g#', 'F#', 'd#', 'C#', 'a#']
+
+
+@battery("keys30")
+def b_keys30(tier, rnd):
+    return {"rule": "the 30 keys", "exhaustive_upto": 30, "cases": [(k,) for k in KEYS30]}
+
+
+@battery("key_note_step")
+def b_key_note_step(tier, rnd):
+    ns = all_names(2) + ["H", "x", "c"]
+    return {"rule": "30 keys x names with <= 2 accidentals (+3 malformed) x steps -8..14",
+            "cases": [(k, n, s) for k in KEYS30 for n in ns for s in range(-8, 15)]}
+
+
+@battery("note_key")
+def b_note_key(tier, rnd):
+    ns = all_names(2) + ["H", "x", "c"]
+    return {"rule": "names with <= 2 accidentals (+3 malformed) x 30 keys",
+            "cases": [(n, k) for k in KEYS30 for n in ns]}
+
+
+@battery("aug_dim")
+def b_aug_dim(tier, rnd):
+    n = bound(tier, 4, 6)
+    return {"rule": "names with <= %d accidentals x 7 natural letters x targets 0..11" % n,
+            "exhaustive_upto": n,
+            "cases": [(a, l, t) for a in all_names(n) for l in LETTERS for t in range(12)]}
+
+
+@battery("key_strings")
+def b_key_strings(tier, rnd):
+    extra = ["", "H", "C##", "cb", "Fb", "fb", "B#", "e#", "C ", " C", "c #", "CB", "Ab ", "AB", "ab#", "G-", "1",
+             "Cmaj", "c minor", "gb", "db", "a b", "E#", "Dbb"] + all_names(2) + [n.lower() for n in all_names(2)]
+    seen, cases = set(), []
+    for k in KEYS30 + extra:
+        if k not in seen:
+            seen.add(k)
+            cases.append((k,))
+    return {"rule": "the 30 keys + every name with <= 2 accidentals in upper and lower case + 24 malformed strings",
+            "cases": cases}
+
+
+@battery("small_ints")
+def b_small_ints(tier, rnd):
+    return {"rule": "integers -40..40 and +-10^9", "cases": [(i,) for i in list(range(-40, 41)) + [10 ** 9, -10 ** 9]]}
